@@ -703,7 +703,17 @@ pub fn configs(tier: Tier) -> Vec<(Tcp2Cfg, u32)> {
     let eager = Tcp2Cfg { b_waits_fin: false, len: [30, 30], ..b("simultaneous-close") };
     let corrupt = Tcp2Cfg { allow_corrupt: true, len: [50, 0], ..b("corrupt") };
     let stallcfg = Tcp2Cfg { rx: [64, 32], tx: [256, 64], len: [100, 0], chunk: 1000, ..b("rx32-len100") };
+    // streams longer than the transmit buffer: the tx ring wraps while data is in flight
+    let wrap24 = Tcp2Cfg { rx: [64, 64], tx: [24, 64], len: [100, 0], ..b("txwrap24") };
+    let wrap40 = Tcp2Cfg { rx: [64, 256], tx: [40, 16], len: [110, 50], mtu: 100, nagle: false, ..b("txwrap40-bidir") };
     let tiny = Tcp2Cfg { rx: [8, 8], tx: [16, 16], len: [20, 9], mtu: 80, ..b("rx8-bidir") };
+    // sweep of stream lengths against a 24-byte transmit ring and a 10-byte peer window: for
+    // some lengths the final unsent chunk straddles the end of the ring storage at close()
+    let sweep_k = if tier == Tier::Quick { 1 } else { 2 };
+    for len in 40..=64usize {
+        let name: &'static str = Box::leak(format!("txring24-rx10-len{}", len).into_boxed_str());
+        v.push((Tcp2Cfg { rx: [64, 10], tx: [24, 64], len: [len, 0], ..b(name) }, sweep_k));
+    }
     match tier {
         Tier::Quick => {
             v.push((small, 3));
@@ -719,6 +729,8 @@ pub fn configs(tier: Tier) -> Vec<(Tcp2Cfg, u32)> {
             v.push((corrupt, 2));
             v.push((stallcfg, 3));
             v.push((tiny, 3));
+            v.push((wrap24, 2));
+            v.push((wrap40, 2));
         }
         Tier::Thorough => {
             v.push((small, 5));
@@ -734,6 +746,8 @@ pub fn configs(tier: Tier) -> Vec<(Tcp2Cfg, u32)> {
             v.push((corrupt, 3));
             v.push((stallcfg, 4));
             v.push((tiny, 4));
+            v.push((wrap24, 3));
+            v.push((wrap40, 3));
         }
     }
     v
